@@ -9,6 +9,7 @@ kernel evaluation (`live_facts`, `flush_facts`); the helpers of `add`/`addToken`
 read nor write the scratch fields (frame lemmas) and leave a mode in which all of them are dead. -/
 set_option linter.unusedSimpArgs false
 set_option linter.unusedVariables false
+set_option linter.unusedSectionVars false
 namespace OjgVerif.Sen
 open OjgVerif
 def numLive : Mode → Bool
